@@ -49,7 +49,7 @@ def ob_air_scalar(which):
                 back = airtovac(air)
                 df = zt(R.lift(back)) - zt(a)
                 ctx.require(z3.And(df < z3.RealVal('1e-6'), -df < z3.RealVal('1e-6')), 'airtovac(vactoair(v)) = v to 1e-6 A wherever vactoair(v) >= 2000', d)
-    return Obligation('air/vacuum scalar %s' % which, fn, bounds='every wavelength in [100 A, 30 micron]', solver_timeout_ms=600000, max_seconds=1700, purify_div=False, incremental_ms=2000)
+    return Obligation('air/vacuum scalar %s' % which, fn, bounds='every wavelength in [100 A, 30 micron]', solver_timeout_ms=600000, max_seconds=1700, purify_div=False, incremental_ms=2000, fresh_strategy='rlimit-first')
 
 
 def ob_air_array(which, n):
@@ -72,7 +72,7 @@ def ob_air_array(which, n):
             ctx.require(zt(R.lift(out[i])) == zt(R.lift(ref)), 'array form agrees with the scalar form element by element', dict(d, i=i))
             ctx.require(zt(arr[i]) == keep[i], 'array form does not modify its input', dict(d, i=i))
     return Obligation('air/vacuum array %s n=%d' % (which, n), fn, bounds='%d wavelengths in [1400 A, 30 micron], any mixture below/above 2000 A' % n,
-                      solver_timeout_ms=300000, purify_div=False, incremental_ms=2000)
+                      solver_timeout_ms=300000, purify_div=False, incremental_ms=2000, fresh_strategy='rlimit-first')
 
 
 CORR = [-0.042, 0.036, 0.015, 0.013, -0.002]
